@@ -189,6 +189,40 @@ def sec_trap():
     want_tests = [t for t in MAIN_TESTS if t != '@FLAT_DURATION_TEST@' or checks_duration]
     want_tests = [FLAT_DURATION_TEST if t == '@FLAT_DURATION_TEST@' else t for t in want_tests]
     expect('make_trapezoid: if tests', tests, want_tests)
+    # the ramp selection after the calculation paths is a two-target assignment; no other chained assignment,
+    # augmented assignment, conditional expression or `or`-default may hide a branch of the timing selection
+    multi = sorted((n.lineno, ' = '.join(unparse(t) for t in n.targets) + ' = ' + unparse(n.value))
+                   for n in ast.walk(mt) if isinstance(n, ast.Assign) and len(n.targets) > 1)
+    expect('make_trapezoid: chained assignments', [m for _, m in multi],
+           ['rise_time = fall_time = calculate_shortest_rise_time(amplitude2, max_slew, system.grad_raster_time)'])
+    extra = [type(n).__name__ for n in ast.walk(mt)
+             if isinstance(n, (ast.AugAssign, ast.IfExp, ast.NamedExpr, ast.While, ast.For, ast.Try, ast.Lambda))]
+    expect('make_trapezoid: statement kinds outside the transcribed ones', extra, [])
+    boolops = sorted(unparse(n) for n in ast.walk(mt) if isinstance(n, ast.BoolOp) and isinstance(n.op, ast.Or))
+    expect('make_trapezoid: `or` expressions', boolops,
+           sorted(['rise_time or fall_time', 'fall_time or rise_time', 'rise_time is None or area is None',
+                   'rise_time is not None or fall_time is not None',
+                   'rise_time <= 0 or fall_time <= 0 or flat_time < 0']))
+    # which fields of the system the function reads, and which functions it calls
+    for fn_, name_, want_attrs in ((mt, 'make_trapezoid', ['grad_raster_time', 'max_grad', 'max_slew']),
+                                  (sp, 'calculate_shortest_params_for_area', []),
+                                  (sr, 'calculate_shortest_rise_time', [])):
+        attrs = sorted({n.attr for n in ast.walk(fn_) if isinstance(n, ast.Attribute)
+                        and isinstance(n.value, ast.Name) and n.value.id == 'system'})
+        expect('%s: fields of `system` read' % name_, attrs, want_attrs)
+    calls = sorted({unparse(n.func) for n in ast.walk(mt) if isinstance(n, ast.Call)})
+    expect('make_trapezoid: functions called', calls,
+           sorted(['NotImplementedError', 'SimpleNamespace', 'ValueError', 'abs', 'calculate_shortest_params_for_area',
+                   'calculate_shortest_rise_time', 'math.ceil', 'math.sqrt', 'round', 'trace', 'trace_enabled',
+                   'warnings.warn'] + (['max'] if tolerant else [])))
+    for fn_, name_, want_calls in ((sp, 'calculate_shortest_params_for_area', ['abs', 'math.ceil', 'math.sqrt', 'max']),
+                                  (sr, 'calculate_shortest_rise_time', ['abs', 'math.ceil', 'max'])):
+        calls = sorted({unparse(n.func) for n in ast.walk(fn_) if isinstance(n, ast.Call)})
+        expect('%s: functions called' % name_, calls, want_calls)
+    # module-level state (memo tables ...) next to the three functions
+    mod_names = sorted(t.id for n in tree.body if isinstance(n, (ast.Assign, ast.AnnAssign))
+                       for t in (n.targets if isinstance(n, ast.Assign) else [n.target]) if isinstance(t, ast.Name))
+    expect('make_trapezoid.py: module-level variables', mod_names, [])
     if tolerant != EXPECT['possible_tolerant']:
         raise TranslateError('make_trapezoid: the `possible` test of the area + duration branch is %s, expected %s'
                              % ('eps-tolerant' if tolerant else 'exact', 'eps-tolerant' if EXPECT['possible_tolerant'] else 'exact'))
